@@ -322,7 +322,9 @@ def enumerate_paths(fn: ast.FunctionDef, max_paths=20000, resolver=None, _depth=
         if isinstance(st, (ast.Break, ast.Continue)):
             return nxt(events + [st], facts)
         if isinstance(st, ast.With):
-            return run(list(st.body) + rest, events + [st], facts, handlers, k)
+            # the event is the `with` header alone: its body follows as events of its own
+            head = ast.copy_location(ast.With(items=st.items, body=[ast.copy_location(ast.Pass(), st)], type_comment=None), st)
+            return run(list(st.body) + rest, events + [head], facts, handlers, k)
         if isinstance(st, ast.Try):
             def after_try(ev, fc):
                 return run(list(st.orelse) + list(st.finalbody) + rest, ev, fc, handlers, k)
